@@ -54,6 +54,7 @@ type Contract struct {
 	Ensures    []*Clause
 	Except     []*Clause // locations exempt from Preserves (written by the frame-less callee after all)
 	Preserves  []*Clause // locations a frame-less (assigns everything) callee is assumed to leave unchanged
+	Stable     []*Clause // whole-class locations assumed untouched by everything this function calls
 	Yields     []*Clause // rely conditions re-assumed after every yield point (select, channel operation)
 	Records    []*Clause // definitional ghost call records: assumed at call sites, not checked in the body
 	Assigns    []*Clause
@@ -435,6 +436,26 @@ func (cs *ContractSet) ParseContractFile(path, pkgPath string) error {
 			for _, p := range splitTop(strings.TrimSpace(rest), ',') {
 				if c := mkClause(l, p); c != nil {
 					cur.Preserves = append(cur.Preserves, c)
+				}
+			}
+		case "stable":
+			// stable <locs> : <justification> - whole-class locations (allof(T).f, anymapof(M)) assumed not to be written
+			// by anything this function calls: they survive every havoc inside the function (reported)
+			if cur == nil {
+				errf(l, "stable outside of func")
+				continue
+			}
+			{
+				fs := strings.SplitN(rest, " : ", 2)
+				if len(fs) != 2 || strings.TrimSpace(fs[1]) == "" {
+					errf(l, "stable <locs> : <justification>")
+					continue
+				}
+				for _, p := range splitTop(strings.TrimSpace(fs[0]), ',') {
+					if c := mkClause(l, p); c != nil {
+						c.Label = strings.TrimSpace(fs[1])
+						cur.Stable = append(cur.Stable, c)
+					}
 				}
 			}
 		case "except":
